@@ -16,11 +16,25 @@
 
 static int C_CASES, C_SPECIAL, C_LISTED, C_UNLISTED, C_NOTFQDN, C_SKIP6531, C_ULABEL;
 typedef eav_result_t *(*email_fn)(const char *, size_t, bool);
+#ifdef HAVE_IDNKIT
+/* the idnkit build's is_6531_email takes a resolver context: mode 6531 goes through a long-lived eav_t that allows every class (record copied out) */
+static eav_t OBJ6531; static int obj6531_ready;
+static eav_result_t *via_object_6531(const char *e, size_t l, bool t) {
+    (void)t;
+    if (!obj6531_ready) { memset(&OBJ6531, 0, sizeof OBJ6531); eav_init(&OBJ6531); OBJ6531.rfc = EAV_RFC_6531; OBJ6531.tld_check = true; OBJ6531.allow_tld = 0x7fe; if (eav_setup(&OBJ6531)) exit(2); obj6531_ready = 1; }
+    eav_is_email(&OBJ6531, e, l);
+    eav_result_t *r = calloc(1, sizeof *r), *s = OBJ6531.result;
+    if (s) { r->rc = s->rc; r->is_ipv4 = s->is_ipv4; r->is_ipv6 = s->is_ipv6; r->is_domain = s->is_domain; r->idn_rc = s->idn_rc; } else r->rc = -EEAV_EMAIL_EMPTY;
+    return r;
+}
+#define is_6531_email via_object_6531
+#endif
 static email_fn EMAIL[4] = { is_822_email, is_5321_email, is_5322_email, is_6531_email };
 static const char *MN[4] = { "822", "5321", "5322", "6531" };
 static const EAV_RFC RFC[4] = { EAV_RFC_822, EAV_RFC_5321, EAV_RFC_5322, EAV_RFC_6531 };
 static eav_t ALL[4], NONE[4];
 static int g_all_lp;      /* replay: try every local-part shape */
+static int g_only6531;    /* steps on the other back ends: the ASCII modes share their code with the default build, only mode 6531 is theirs */
 static int g_distinct;   /* set by a generator while the domains it emits are pairwise distinct by construction */
 
 static int expected_class(const char *d, size_t n) {
@@ -50,7 +64,7 @@ static void check_class(const char *sub, const char *d, size_t n) {
     if (g_distinct) MC_ADD(C_NONTRIV, 1);
     MC_ADD(exp == TLD_TYPE_SPECIAL ? C_SPECIAL : exp == -EEAV_DOMAIN_NOT_FQDN ? C_NOTFQDN : exp > 0 ? C_LISTED : C_UNLISTED, 1);
     int transparent = ref_idn_transparent((const unsigned char *)d, n);
-    for (int m = 0; m < 4; m++) {
+    for (int m = g_only6531 ? 3 : 0; m < 4; m++) {
         eav_result_t *r = EMAIL[m](buf, n + off, true);
         int rc = r->rc; eav_result_free(r);
         MC_ADD(C_EVAL, 1);
@@ -318,6 +332,7 @@ int main(int argc, char **argv) {
 #else
     mc_init(argc, argv, "C07");
 #endif
+    for (int i = 1; i < argc; i++) if (!strcmp(argv[i], "--only6531")) g_only6531 = 1;
     C_CASES = mc_counter("domains_classified"); C_SPECIAL = mc_counter("expected_special"); C_LISTED = mc_counter("expected_listed_class");
     C_UNLISTED = mc_counter("expected_invalid_tld"); C_NOTFQDN = mc_counter("expected_not_fqdn"); C_SKIP6531 = mc_counter("mode6531_idn_error_on_ascii_skipped");
     C_ULABEL = mc_counter("u_label_cases"); C_DEPTHC = mc_counter("depth_corpus_domains"); C_LIBROWS = mc_counter("library_table_rows_walked"); C_MAPPED = mc_counter("idna_mapped_spellings");
